@@ -17,7 +17,7 @@ import ast
 from typing import Dict, List, Optional, Set, Tuple
 
 from ..core import AnalysisError, Func, call_name, norm, short
-from ..util import guards_of
+from ..util import atoms, guards_of
 
 _UNICODE_DIGIT_PREDICATES = ("isdigit", "isdecimal", "isnumeric")
 
@@ -412,3 +412,125 @@ def rule_includes_same_value_zero(ctx, rep, rid: str) -> None:
             rep.bad(rid, key, f"{f.qual} compares elements with strict equality only: NaN === NaN is false, so [NaN].includes(NaN) is false although includes is specified with SameValueZero", f.loc)
     if n == 0:
         raise AnalysisError("array includes native not found")
+
+
+# ---- text handed to the host's int()/float() was admitted character by character -------------------------
+def _admitting(test: ast.AST, pol: bool) -> bool:
+    """Does this condition, known to hold, admit a character by looking at it: `c in "0123"`, `c == "."`,
+    `_is_digit(c)`, `c.isdigit()` (restricted elsewhere)?"""
+    for a, p in atoms(test, pol):
+        if isinstance(a, ast.Compare) and len(a.ops) == 1 and isinstance(a.comparators[0], ast.Constant) and isinstance(a.comparators[0].value, str):
+            if (isinstance(a.ops[0], (ast.In, ast.Eq)) and p) or (isinstance(a.ops[0], (ast.NotIn, ast.NotEq)) and not p):
+                return True
+        if isinstance(a, ast.Call) and p and (norm(a.func).split(".")[-1] in ("_is_digit", "isdigit", "_is_hex_digit", "_is_identifier_part", "_is_identifier_start")):
+            return True
+    return False
+
+
+def rule_host_parser_text_admitted(ctx, rep, rid: str, modules: Tuple[str, ...] = ("lexer", "parser", "regex.parser"), floor: int = 4) -> None:
+    """int(text, base) and float(text) accept more than any ECMAScript literal: a sign, surrounding blanks,
+    underscores between digits, digits of other scripts.  Source text handed to them has to be admitted character by
+    character first: every character appended to the collected text sits under a test of that character against
+    constants, or the text is checked by a loop that rejects anything outside a constant set."""
+    rep.rule(rid, "in the front end, text handed to the host's int()/float() was admitted character by character: every `text += <next character>` sits under a test of that character against constants (membership, equality, the ASCII digit predicate), or a loop over the text rejects everything outside a constant set before the conversion: the host's number grammar (sign, blanks, underscores) never decides what a literal or an escape is", floor=floor)
+    n = 0
+    for f in ctx.tree.funcs:
+        if isinstance(f.node, ast.Lambda) or not f.module.name.startswith(modules):
+            continue
+        for c in f.own_nodes():
+            if not (isinstance(c, ast.Call) and isinstance(c.func, ast.Name) and c.func.id in ("int", "float") and c.args):
+                continue
+            a0 = c.args[0]
+            if isinstance(a0, ast.BoolOp):
+                a0 = a0.values[0]
+            if not isinstance(a0, ast.Name):
+                continue
+            t = a0.id
+            # follow `t = u.lstrip(..)` / `t = u` / `t = u or "0"` to the collected text
+            seen = set()
+            while t not in seen:
+                seen.add(t)
+                src = [a.value for a in f.own_nodes() if isinstance(a, ast.Assign) and any(isinstance(x, ast.Name) and x.id == t for x in a.targets)]
+                nxt = None
+                for v in src:
+                    if isinstance(v, ast.BoolOp):
+                        v = v.values[0]
+                    if isinstance(v, ast.Call) and isinstance(v.func, ast.Attribute) and v.func.attr in ("lstrip", "rstrip", "strip", "lower", "upper") and isinstance(v.func.value, ast.Name):
+                        nxt = v.func.value.id
+                    elif isinstance(v, ast.Name):
+                        nxt = v.id
+                if nxt is None:
+                    break
+                t = nxt
+            names = seen | {t}
+            n += 1
+            key = f"{f.qual}:{short(c, 30)}"
+            # (b) a validating loop over the text
+            validated = False
+            for loop in f.own_nodes():
+                if isinstance(loop, ast.For) and isinstance(loop.iter, ast.Name) and loop.iter.id in names and isinstance(loop.target, ast.Name) and loop.lineno < c.lineno:
+                    lv = loop.target.id
+                    for i in loop.body:
+                        if isinstance(i, ast.If) and isinstance(i.test, ast.Compare) and len(i.test.ops) == 1 and isinstance(i.test.ops[0], ast.NotIn) and norm(i.test.left) == lv and isinstance(i.test.comparators[0], ast.Constant) and i.body and isinstance(i.body[-1], (ast.Return, ast.Raise)):
+                            validated = True
+            if validated:
+                rep.ok(rid, key, {"admitted_by": "a loop that rejects every character outside a constant set"})
+                continue
+            # (a) every append of a character is under an admitting test
+            appends = [a for a in f.own_nodes() if isinstance(a, ast.AugAssign) and isinstance(a.target, ast.Name) and a.target.id in names and isinstance(a.op, ast.Add)]
+            params = set(f.params())
+            if not appends:
+                if names & params:
+                    # the text is a parameter: the callers collected it
+                    pn = sorted(names & params)[0]
+                    idx = [x for x in f.params() if x != "self"].index(pn)
+                    culprit = None
+                    for g in ctx.tree.funcs:
+                        if isinstance(g.node, ast.Lambda) or g.module is not f.module:
+                            continue
+                        for cc in g.own_nodes():
+                            if isinstance(cc, ast.Call) and ((isinstance(cc.func, ast.Name) and cc.func.id == f.name) or (isinstance(cc.func, ast.Attribute) and cc.func.attr == f.name)) and idx < len(cc.args) and isinstance(cc.args[idx], ast.Name):
+                                an = cc.args[idx].id
+                                for ap in g.own_nodes():
+                                    if isinstance(ap, ast.AugAssign) and isinstance(ap.target, ast.Name) and ap.target.id == an and not isinstance(ap.value, ast.Constant):
+                                        lp = getattr(ap, "_parent", None)
+                                        while lp is not None and lp is not g.node and not isinstance(lp, (ast.For, ast.While)):
+                                            lp = getattr(lp, "_parent", None)
+                                        cds = list(guards_of(ap, lp if isinstance(lp, (ast.For, ast.While)) else g.node))
+                                        if isinstance(lp, ast.While):
+                                            cds.append((lp.test, True))
+                                        if not any(_admitting(tst, pol) for tst, pol in cds):
+                                            culprit = (g, ap)
+                    if culprit is not None:
+                        g, ap = culprit
+                        rep.bad(rid, key, f"{f.qual} hands its parameter `{pn}` to the host's {c.func.id}() without checking its characters, and {g.qual} collects that text with `{short(ap, 40)}` (line {ap.lineno}) without testing the character against constants: the host accepts a sign, blanks and underscores, so '+1' or '1_0' is taken for digits", f"{f.module.rel}:{c.lineno}")
+                    else:
+                        rep.ok(rid, key, {"note": "the text is a parameter: its callers admit every character"})
+                else:
+                    rep.ok(rid, key, {"note": "not collected character by character here"})
+                    n -= 1
+                continue
+            bad = None
+            for a in appends:
+                if isinstance(a.value, ast.Constant):
+                    continue
+                # only tests made for THIS character count: those between the append and its nearest enclosing loop
+                # (the loop's own test included); a test of some earlier character further out admits nothing
+                loop = getattr(a, "_parent", None)
+                while loop is not None and loop is not f.node and not isinstance(loop, (ast.For, ast.While)):
+                    loop = getattr(loop, "_parent", None)
+                if isinstance(loop, (ast.For, ast.While)):
+                    conds = list(guards_of(a, loop))
+                    if isinstance(loop, ast.While):
+                        conds.append((loop.test, True))
+                else:
+                    conds = list(guards_of(a, f.node))
+                if not any(_admitting(tst, pol) for tst, pol in conds):
+                    bad = a
+                    break
+            if bad is None:
+                rep.ok(rid, key, {"appends": len(appends)})
+            else:
+                rep.bad(rid, key, f"{f.qual} hands `{a0.id}` to the host's {c.func.id}() after collecting it with `{short(bad, 40)}` (line {bad.lineno}) without testing that character against constants: the host accepts a sign, blanks and underscores, so text such as '+1' or '1_0' is taken for digits (and text it rejects raises a host ValueError unless the site handles it)", f"{f.module.rel}:{bad.lineno}")
+    if n < floor:
+        raise AnalysisError(f"{rid}: only {n} host number conversions of collected text found")
